@@ -117,13 +117,96 @@ class ClassInfo:
         return "<Class %s>" % self.name
 
 
+def canonicalise(tree: ast.AST) -> ast.AST:
+    """Behaviour-preserving normal form applied to every module before any rule looks at it, so that the rules that
+    read the syntax tree do not depend on three spellings a maintainer may choose freely:
+      * `tmp = E; return tmp` (tmp used nowhere else)            ->  `return E`
+      * `if not C: B else: A` (a real else, not an elif chain)   ->  `if C: A else: B`
+      * `K <op> X` with a literal K on the left                  ->  `X <flipped op> K`
+    Line numbers of the surviving nodes are kept."""
+
+    def only_return_temp(fn: ast.AST, name: str) -> bool:
+        """every occurrence of `name` in fn is the target of an assignment directly followed by `return name`"""
+        paired = 0
+        for node in ast.walk(fn):
+            for fld in ("body", "orelse", "finalbody"):
+                blk = getattr(node, fld, None)
+                if not (isinstance(blk, list) and blk and isinstance(blk[0], ast.stmt)):
+                    continue
+                for a, b in zip(blk, blk[1:]):
+                    if isinstance(a, ast.Assign) and len(a.targets) == 1 and isinstance(a.targets[0], ast.Name) and a.targets[0].id == name and isinstance(b, ast.Return) and isinstance(b.value, ast.Name) and b.value.id == name:
+                        if not any(isinstance(x, ast.Name) and x.id == name for x in ast.walk(a.value)):
+                            paired += 1
+        total = sum(1 for n in ast.walk(fn) if isinstance(n, ast.Name) and n.id == name)
+        return paired > 0 and total == 2 * paired
+
+    def fix_block(stmts, fn):
+        out = []
+        i = 0
+        while i < len(stmts):
+            st = stmts[i]
+            nxt = stmts[i + 1] if i + 1 < len(stmts) else None
+            if (
+                isinstance(st, ast.Assign)
+                and len(st.targets) == 1
+                and isinstance(st.targets[0], ast.Name)
+                and isinstance(nxt, ast.Return)
+                and isinstance(nxt.value, ast.Name)
+                and nxt.value.id == st.targets[0].id
+                and fn is not None
+                and only_return_temp(fn, st.targets[0].id)
+            ):
+                r = ast.Return(value=st.value)
+                ast.copy_location(r, st)
+                out.append(r)
+                i += 2
+                continue
+            out.append(st)
+            i += 1
+        return out
+
+    _flip = {ast.Lt: ast.Gt, ast.Gt: ast.Lt, ast.LtE: ast.GtE, ast.GtE: ast.LtE, ast.Eq: ast.Eq, ast.NotEq: ast.NotEq}
+
+    class N(ast.NodeTransformer):
+        def __init__(self):
+            self.fn = None
+
+        def visit_FunctionDef(self, n):
+            prev, self.fn = self.fn, n
+            self.generic_visit(n)
+            self.fn = prev
+            return n
+
+        def generic_visit(self, node):
+            super().generic_visit(node)
+            for fld in ("body", "orelse", "finalbody"):
+                blk = getattr(node, fld, None)
+                if isinstance(blk, list) and blk and isinstance(blk[0], ast.stmt):
+                    setattr(node, fld, fix_block(blk, self.fn if not isinstance(node, ast.FunctionDef) else node))
+            return node
+
+        def visit_If(self, n):
+            self.generic_visit(n)
+            if isinstance(n.test, ast.UnaryOp) and isinstance(n.test.op, ast.Not) and n.orelse and not (len(n.orelse) == 1 and isinstance(n.orelse[0], ast.If)):
+                n.test, n.body, n.orelse = n.test.operand, n.orelse, n.body
+            return n
+
+        def visit_Compare(self, n):
+            self.generic_visit(n)
+            if len(n.ops) == 1 and type(n.ops[0]) in _flip and isinstance(n.left, ast.Constant) and isinstance(n.left.value, (int, float)) and not isinstance(n.left.value, bool) and not isinstance(n.comparators[0], ast.Constant):
+                n.left, n.comparators, n.ops = n.comparators[0], [n.left], [_flip[type(n.ops[0])]()]
+            return n
+
+    return ast.fix_missing_locations(N().visit(tree))
+
+
 class ModInfo:
     def __init__(self, name: str, relpath: str, text: str):
         self.name = name
         self.base = name.split(".")[-1]
         self.relpath = relpath
         self.text = text
-        self.tree = ast.parse(text, filename=relpath)
+        self.tree = canonicalise(ast.parse(text, filename=relpath))
         self.imports: Dict[str, str] = {}  # local name -> dotted target
         self.functions: Dict[str, FuncInfo] = {}
         self.classes: Dict[str, ClassInfo] = {}
